@@ -96,6 +96,47 @@ def b64(x):
     return base64.b64encode(x if isinstance(x, bytes) else x.encode()).decode()
 
 
+def ring_files(rel, n, files):
+    """n declarations referring to one another in a ring through relation rel; one application per file when files is set."""
+    nxt = lambda i: (i + 1) % n
+    apps = []
+    if rel in ("mixin", "call", "subscribe"):
+        for i in range(n):
+            a, b = "R%d" % i, "R%d" % nxt(i)
+            if rel == "mixin":
+                body = "%s [~abstract]:\n    -|> %s\n    !type T%d:\n        x <: int\n" % (a, b, i)
+            elif rel == "call":
+                body = "%s:\n    e:\n        %s <- e\n        return ok <: string\n" % (a, b)
+            elif rel == "subscribe":
+                body = "%s:\n    <-> Ev:\n        ...\n    %s -> Ev:\n        %s <- Ev\n" % (a, b, b)
+            apps.append(body)
+    else:
+        lines = ["R0:"]
+        for i in range(n):
+            j = nxt(i)
+            if rel == "alias":
+                lines += ["    !alias A%d:" % i, "        A%d" % j]
+            elif rel == "aliasseq":
+                lines += ["    !alias A%d:" % i, "        sequence of A%d" % j]
+            elif rel == "union":
+                lines += ["    !union U%d:" % i, "        U%d" % j, "        int"]
+            elif rel == "field":
+                lines += ["    !type T%d:" % i, "        n <: T%d" % j]
+            elif rel == "fieldseq":
+                lines += ["    !type T%d:" % i, "        n <: set of T%d?" % j]
+            elif rel == "viewcall":
+                lines += ["    !view V%d(x <: int) -> int:" % i, "        x -> (:", "            y = V%d(x)" % j, "        )"]
+            elif rel == "tablefk":
+                lines += ["    !table T%d:" % i, "        id <: int [~pk]", "        r <: T%d.id" % j]
+        apps.append("\n".join(lines) + "\n")
+    if not files or len(apps) == 1:
+        return {"main.sysl": "\n".join(apps)}
+    out = {"main.sysl": "".join("import f%d\n" % i for i in range(1, len(apps))) + "\n" + apps[0]}
+    for i in range(1, len(apps)):
+        out["f%d.sysl" % i] = apps[i]
+    return out
+
+
 def check_c01(ctx):
     quick = ctx.quick()
     rng = random.Random(ctx.seed)
@@ -119,6 +160,9 @@ def check_c01(ctx):
         add({"main.sysl": prog}, what=s)
         # the same file reached through an import
         add({"main.sysl": "import dep\nRoot:\n    Ep:\n        ...\n", "dep.sysl": prog}, what=dict(s, via="import"))
+    # rings of declarations that refer to one another
+    for s in [x for x in table if x["kind"] == "ring"]:
+        add(ring_files(s["rel"], s["n"], s["files"]), what=s)
     # near-misses of valid generated programs
     progs = fam_frontend.programs(ctx, 40 if quick else 400, seed_off=1)
     for p in progs:
@@ -190,5 +234,6 @@ def check_c01(ctx):
            "samples": [scn[0]["what"], scn[len(scn) // 2]["what"], scn[-1]["what"]]}
     return core.finish(ctx, "exploration", cov, [
         "compiles run in-process in a guarded goroutine (recover only classifies the panic) with a 10 s bound, re-run with 30 s before a hang is reported",
-        "a fatal runtime error (stack exhaustion) kills the driver process: reported by the orchestrator as an infrastructure failure naming the scenario, not silently skipped",
+        "a fatal runtime error (stack exhaustion) kills the driver process: the orchestrator attributes it to the running scenario (event `fatal`, which the life cycle cannot explain) and restarts the driver",
+        "rings of 1..4 declarations through every referring relation (mixin, alias, union, field, call, subscription, view call, foreign key), in one file and spread over imported files",
     ])
